@@ -11,6 +11,10 @@ from typing import Any
 
 UNSPEC = "UNSPEC"
 TYPE_ERROR = "LiquidTypeError"
+# set-valued cells: the property settles that the comparison cannot hold (or, for identical operands of <= / >=, can only hold through
+# equality) but not whether an ordering of such operands is a type error
+FALSE_OR_TYPE_ERROR = "false-or-LiquidTypeError"
+TRUE_OR_TYPE_ERROR = "true-or-LiquidTypeError"
 
 
 def kind(o) -> str:
@@ -113,8 +117,11 @@ def eq(a, b) -> Any:
 
 def lt(a, b) -> Any:
     ka, kb = kind(a), kind(b)
-    if "bool" in (ka, kb) or ka in ("empty", "blank") or kb in ("empty", "blank"):
+    if ka in ("empty", "blank") or kb in ("empty", "blank"):
         return UNSPEC
+    if "bool" in (ka, kb):
+        # a boolean is neither a number nor a string: it is never less than anything ("incompatible types raise" or plain false)
+        return FALSE_OR_TYPE_ERROR
     if ka == "num" and kb == "num":
         return a[1] < b[1]
     if ka == "str" and kb == "str":
@@ -128,6 +135,13 @@ def le(a, b) -> Any:
         return a[1] <= b[1]
     if {ka, kb} == {"num", "str"}:
         return TYPE_ERROR
+    if ka in ("empty", "blank") or kb in ("empty", "blank"):
+        return UNSPEC
+    if "bool" in (ka, kb):
+        e = eq(a, b)
+        if e is UNSPEC:
+            return UNSPEC
+        return TRUE_OR_TYPE_ERROR if e else FALSE_OR_TYPE_ERROR
     return UNSPEC
 
 
@@ -244,9 +258,13 @@ def eval_flat(tokens: list) -> Any:
             return n[1]() if callable(n[1]) else n[1]
         if n[0] == "not":
             v = ev(n[1])
+            if v in (FALSE_OR_TYPE_ERROR, TRUE_OR_TYPE_ERROR):
+                return UNSPEC
             return v if v in (UNSPEC, TYPE_ERROR) else (not v)
         op, l, r = n
         lv = ev(l)
+        if lv in (FALSE_OR_TYPE_ERROR, TRUE_OR_TYPE_ERROR):
+            return UNSPEC
         if lv in (UNSPEC, TYPE_ERROR):
             return lv
         if op == "and":
